@@ -321,6 +321,19 @@ class Spec:
             if rec and sc["qlen"] < QUEUE_CAP:
                 sc["qlen"] += 1
                 self.attach_local(sc, ("props", kvs))
+        elif op == "evToLocal":
+            # deprecated Event::add_to_local_parent(name, closure): the closure runs only when a local parent is recording
+            sc = self.top(t)
+            rec = sc is not None and sc["sampled"]
+            self.closure_obs.append((pos, rec))
+            if rec:
+                self.apply("%d lAddEvent %s %s" % (t, a[0], a[1].split(":", 1)[1] or "none"), pos)
+        elif op == "evToParent":
+            # deprecated Event::add_to_parent(name, &span, closure): the closure runs only when the span is recording
+            sp = self.spans[a[0]]
+            self.closure_obs.append((pos, sp is not None))
+            if sp is not None:
+                self.apply("%d addEvent %s %s %s" % (t, a[0], a[1], a[2].split(":", 1)[1] or "none"), pos)
         elif op == "lAddEvent":
             name = unhx(a[0])
             props = [] if a[1] == "none" else rprops(a[1])
@@ -605,6 +618,9 @@ class Gen:
         return None
 
     def op_add_event(self, t, v):
+        if self.k.get("deprecated_events") and self.r.chance(1, 3):
+            self.emit(t, "evToParent %s %s 0:%s" % (v, hx(self.name("e")), wprops(self.kvs())))
+            return
         pre = self.pooled(t)
         if pre:
             self.emit(t, "addEventPre %s %s %s" % (v, pre[0], pre[1]))
@@ -679,6 +695,9 @@ class Gen:
         self.emit(t, "lAddProps %s" % self.closure())
 
     def op_l_add_event(self, t):
+        if self.k.get("deprecated_events") and self.r.chance(1, 3):
+            self.emit(t, "evToLocal %s 0:%s" % (hx(self.name("e")), wprops(self.kvs())))
+            return
         pre = self.pooled(t)
         if pre:
             self.emit(t, "lAddEventPre %s %s" % (pre[0], pre[1]))
